@@ -8,6 +8,7 @@ import (
 
 	"context"
 
+	"github.com/freeconf/yang/fc"
 	"github.com/freeconf/yang/meta"
 	"github.com/freeconf/yang/val"
 )
@@ -267,9 +268,13 @@ func BuildConstraints(sel *Selection, params map[string][]string) error {
 	}
 	constraints := NewConstraints(sel.Constraints)
 	maxDepth := MaxDepth{MaxDepth: 64}
-	if n, found := findIntParam(params, "depth"); found {
+	if n, found, err := findIntParam(params, "depth"); err != nil {
+		return err
+	} else if found {
 		if n == 0 {
 			return errMaxDepthZeroNotAllowed
+		} else if n < 0 {
+			return fmt.Errorf("%w. depth must be positive: %d", fc.BadRequestError, n)
 		} else {
 			maxDepth.MaxDepth = n
 		}
@@ -297,7 +302,9 @@ func BuildConstraints(sel *Selection, params map[string][]string) error {
 		}
 	}
 	maxNode := &MaxNode{Max: 10000}
-	if n, found := findIntParam(params, "fc.max-node-count"); found {
+	if n, found, err := findIntParam(params, "fc.max-node-count"); err != nil {
+		return err
+	} else if found {
 		maxNode.Max = n
 	}
 	constraints.AddConstraint("fc.max-node-count", 10, 60, maxNode)
@@ -436,13 +443,15 @@ func wrapEndEditErr(endErr error, prev error) error {
 	return fmt.Errorf("error during endEdit: %w, previous error: %w", endErr, prev)
 }
 
-func findIntParam(params map[string][]string, param string) (int, bool) {
+func findIntParam(params map[string][]string, param string) (int, bool, error) {
 	if v, found := params[param]; found {
-		if n, err := strconv.Atoi(v[0]); err == nil {
-			return n, true
+		n, err := strconv.Atoi(v[0])
+		if err != nil {
+			return 0, false, fmt.Errorf("%w. parameter %s is not an integer: '%s'", fc.BadRequestError, param, v[0])
 		}
+		return n, true, nil
 	}
-	return 0, false
+	return 0, false, nil
 }
 
 // InsertInto Copy current node into given node.  If there are any existing containers of list
